@@ -110,6 +110,13 @@ FoldNum(q, op, acc) ==
 
 IsPerfectSquare(k) == \E r \in 0..200 : r * r = k
 SqrtInt(k) == CHOOSE r \in 0..200 : r * r = k
+\* the one fractional exponent the model knows: 1/2, on a non-negative rational whose numerator and denominator are perfect
+\* squares (so that (x ** 2) ** 0.5 has a value, namely |x|)
+QPowX(a, e) ==
+  IF e = <<"n", 1, 2>> THEN
+       (IF ~IsNum(a) THEN U ELSE IF a[2] < 0 THEN U
+        ELSE IF a[2] <= 40000 /\ a[3] <= 40000 /\ IsPerfectSquare(a[2]) /\ IsPerfectSquare(a[3]) THEN Q(SqrtInt(a[2]), SqrtInt(a[3])) ELSE O)
+  ELSE QPow(a, e)
 
 (***************************************************************************)
 (* Eval(n, rho, strict)                                                     *)
@@ -198,7 +205,7 @@ ApplyBin(op, a, b) ==
   CASE op \in ArithOps ->
          (IF ~IsNum(a) \/ ~IsNum(b) THEN U
           ELSE IF op = "+" THEN QAdd(a, b) ELSE IF op = "-" THEN QSub(a, b)
-          ELSE IF op = "*" THEN QMul(a, b) ELSE IF op = "/" THEN QDiv(a, b) ELSE QPow(a, b))
+          ELSE IF op = "*" THEN QMul(a, b) ELSE IF op = "/" THEN QDiv(a, b) ELSE QPowX(a, b))
     [] op \in OrdOps ->
          (IF ~IsNum(a) \/ ~IsNum(b) THEN U
           ELSE IF op = "<" THEN B(QLt(a, b)) ELSE IF op = "<=" THEN B(QLe(a, b))
